@@ -68,7 +68,7 @@ def build_cpp(prop, spec, cfg_inc, variant=""):
     for i, s in enumerate(srcs):
         o = os.path.join(bdir, "%02d_%s.o" % (i, os.path.basename(s).replace(".", "_")))
         objs.append(o)
-        jobs.append([cxx] + flags + ["-c", s, "-o", o])
+        jobs.append([cxx] + flags + spec.get("source_flags", {}).get(os.path.basename(s), []) + ["-c", s, "-o", o])
     t0 = time.time()
     with ThreadPoolExecutor(max_workers=16) as ex:
         res = list(ex.map(lambda c: run(c), jobs))
